@@ -27,7 +27,7 @@ ASSUMPTIONS = ["buffer ids are opaque: the model only requires an id not to "
                "be outstanding when handed out",
                "an unbuffered packet-in carries the whole frame whatever "
                "max_len / miss_send_len say"]
-REQUIRED = ["packet_ins", "buffered", "unbuffered_pool_full", "released_by_packet_out",
+REQUIRED = ["histories_in_which_time_passes_with_buffers_outstanding", "packet_ins", "buffered", "unbuffered_pool_full", "released_by_packet_out",
             "released_by_flow_mod", "released_by_rejected_flow_mod", "flow_mod_modify_with_buffer", "rebuffered_during_release", "stale_uses",
             "bogus_uses", "truncated",
             "ids_reused_after_release", "advertised_buffer_counts_read",
@@ -197,6 +197,12 @@ def run_history (case, rep):
     k = op[0]
     xid += 1
     sw.take_out()
+    if k == "wait":
+      # the controller takes its time: an id it was given stays good (and the
+      # packet stays stored) however long that is
+      _clk[0].advance(op[1])
+      rep.count("histories_in_which_time_passes_with_buffers_outstanding")
+      continue
     if k in ("miss", "ctl"):
       uid += 1
       size = op[2]
@@ -440,13 +446,21 @@ def run_history (case, rep):
   return nt
 
 
+_clk = []
+
+
 def do_case (case, rep):
+  clock = simnet.VClock(7000.5)
+  clock.install()      # (time passes only where a history says so)
+  _clk[:] = [clock]
   try:
     nt = run_history(case, rep)
   except Exception:
     rep.violation("C18 harness-visible exception",
                   traceback.format_exc()[-900:], case)
     nt = True
+  finally:
+    clock.uninstall()
   rep.case(repr((case["pool"], case["ops"], case.get("miss0"), case.get("quiet_port"))).encode(),
            nontrivial=bool(nt))
 
@@ -475,6 +489,10 @@ def gen (rng, n, maxlen):
         ops.append(["bogus", rng.randrange(5), rng.randrange(len(ACTS))])
       else:
         ops.append(["cfg", rng.choice([0, 14, 64, 128, 0xffff])])
+    if rng.random() < 0.3:
+      for _ in range(rng.randrange(1, 4)):
+        ops.insert(rng.randrange(len(ops) + 1),
+                   ["wait", rng.choice([0.5, 2.5, 6, 31, 61, 700, 4000, 90000])])
     case = dict(pool=pool, ops=ops)
     if rng.random() < 0.4: case["miss0"] = rng.choice([0, 14, 64, 0xffff])
     if rng.random() < 0.3:
